@@ -4,15 +4,20 @@ from checks import inputfam
 
 def run(ctx):
     q = ctx.tier == "quick"
-    # M: the tokenizer loop over a small alphabet with a key that extends the focus report: all strings x all partitions
-    ctx.model("InputModel", constants=dict(MaxLen=4 if q else 5, FocusGuard="TRUE"), timeout=3000)
-    bad = ctx.tlc("InputModel", workers=8, timeout=600, constants=dict(MaxLen=4, FocusGuard="FALSE"))
+    # M: the tokenizer (Tokenizer.tla: the loop and its six parsers) over two small alphabets: all strings x partitions
+    foc = dict(MaxLen=4 if q else 5, MaxCuts=8, ALPHA='"focus"', LEAD='"any"', FocusGuard="TRUE", SgrStrict="TRUE")
+    mou = dict(MaxLen=7, MaxCuts=1 if q else 3, ALPHA='"mouse"', LEAD='"esc"' if q else '"any"', FocusGuard="TRUE", SgrStrict="TRUE")
+    ctx.model("InputModel", constants=foc, timeout=3000)
+    ctx.model("InputModel", constants=mou, timeout=3400)
+    bad = ctx.tlc("InputModel", workers=8, timeout=600, constants=dict(foc, MaxLen=4, FocusGuard="FALSE"))
     ctx.cov["model_without_focus_guard_refuted"] = "ChunkIndependent is violated" in bad["out"]
+    bad = ctx.tlc("InputModel", workers=8, timeout=900, constants=dict(mou, MaxCuts=0, LEAD='"esc"', SgrStrict="FALSE"))
+    ctx.cov["model_of_original_sgr_scan_refuted"] = "NoSwallow is violated" in bad["out"]
     s, r = inputfam.run_input(ctx, "C02", "chunk", 40 if q else 120, exhaustive=not q, extra=["--alpha", 4 if q else 5])
     ctx.cov["traces_validated_against_impl"] = s["histories"] + s.get("model_space_runs", 0)
     ctx.cov["model_space_runs_replayed"] = s.get("model_space_runs", 0)
     ctx.finish("model_checking",
-               rule="M: InputModel.tla - every byte string (<= 4/5) over {ESC [ O a I} x every partition, ChunkIndependent/Drained/Progress; the same space replayed through the real decoder on rxvt and xterm; per registered terminal: token strings (keys of that terminal, Alt-prefixed keys, UTF-8 text, SGR/X11 mouse, "
+               rule="M: InputModel.tla over Tokenizer.tla - every byte string (<= 4/5) over {ESC [ O a I} x every partition and every string (<= 7) over {ESC [ < ; M a} x partitions with <= 1/3 cuts: ChunkIndependent/Drained/Progress/NoSwallow; the as-found loop (no focus guard; SGR scan skipping foreign bytes) is refuted; the first space replayed through the real decoder on rxvt and xterm; V: the single-read decode of every 7-bit string is predicted by the tokenizer model from the terminal's real key table and compared; per registered terminal: token strings (keys of that terminal, Alt-prefixed keys, UTF-8 text, SGR/X11 mouse, "
                     "paste brackets, focus reports, OSC 52 replies with BEL/ST, control bytes, DEL, trailing ESC) and random byte "
                     "strings; each decoded in one read, byte at a time, and under 1-/2-cut partitions (all of them for short "
                     "strings in the thorough tier); distinct = distinct byte strings")
